@@ -17,7 +17,11 @@ EXPLANATION = (
     "(R2) the client adopts key, token and CONNECTED only after the hello decoded (and verified) normally; (R3) no other "
     "package message class can impersonate the server hello; (R4) both HKDF derivations use the same parameters and a 16-byte "
     "key; (R5) promotion is control-dependent on the issued token, and a key-less CHALLENGE_RESP is unreachable (shared with "
-    "C01.R5). Does not decide ECDSA/ECDH/HKDF soundness nor behaviour under reordering/duplication of handshake datagrams."
+    "C01.R5); (R7) the ECDSA verify/sign helpers are thin wrappers around the library primitive; (R8) one key and token per "
+    "handshake: a pending handshake is registered only for an address in neither pool (a duplicated or replayed hello cannot "
+    "replace the connection whose key the client adopted), the server-side key is written only while handling the client hello, "
+    "and the temp pool hands only CHALLENGE_RESP-typed datagrams to the pending connection (shared with C01.R6). Does not decide "
+    "ECDSA/ECDH/HKDF soundness; of reordering/duplication of handshake datagrams only the structural part named under R8."
 )
 ASSUMPTIONS = [
     "EllipticCurvePublicKey.verify raises on every (signature, payload) pair not produced by the matching private key",
